@@ -45,11 +45,21 @@ fn is_rfc_request(buf: &[u8]) -> bool {
     &buf[0..8] == REQUEST_FRAMING_BYTES
 }
 
+/// Length (in bytes) of the NONC value required by each protocol version
+const fn nonce_length(version: Version) -> usize {
+    match version {
+        Version::Google => 64,
+        Version::RfcDraft13 => 32,
+    }
+}
+
 fn nonce_from_classic_request(buf: &[u8]) -> Result<(Vec<u8>, Version), Error> {
     let msg = RtMessage::from_bytes(buf)?;
     match msg.get_field(Tag::NONC) {
-        Some(nonce) => Ok((nonce.to_vec(), Version::Google)),
-        None => Err(Error::InvalidRequest),
+        Some(nonce) if nonce.len() == nonce_length(Version::Google) => {
+            Ok((nonce.to_vec(), Version::Google))
+        }
+        _ => Err(Error::InvalidRequest),
     }
 }
 
@@ -77,9 +87,10 @@ fn nonce_from_rfc_request(buf: &[u8], expected_srv: &[u8]) -> Result<(Vec<u8>, V
         }
     }
 
+    let version = version.unwrap();
     match msg.get_field(Tag::NONC) {
-        Some(nonce) => Ok((nonce.to_vec(), version.unwrap())),
-        None => Err(Error::InvalidRequest),
+        Some(nonce) if nonce.len() == nonce_length(version) => Ok((nonce.to_vec(), version)),
+        _ => Err(Error::InvalidRequest),
     }
 }
 
